@@ -62,6 +62,27 @@ def scalingAxis (chLast : Bool) (sa : AxisSpec) (len : Nat) : List Nat :=
 inductive Err | assert | valueError
   deriving Repr, DecidableEq
 
+/-- `scale_axis` as Python hands it over: the ints may be negative -/
+inductive AxisArg
+  | none
+  | one (a : Int)
+  | many (l : List Int)
+  deriving Repr, DecidableEq
+
+def AxisArg.nonneg : AxisArg → Bool
+  | .none => true
+  | .one a => decide (0 ≤ a)
+  | .many l => l.all fun a => decide (0 ≤ a)
+
+/-- what `_get_scaling_axis` makes of negative axes (no `elements_per_scale`): a negative int reaches
+    `tf.range(scale_axis)` which raises (InvalidArgumentError "Requires start <= limit"); a negative entry
+    of a list never equals an `i in range(len_axis)`, so it is silently IGNORED (`scale_axis=[-1]` reduces
+    over every axis: one scale for the whole tensor) — numpy's "-1 = last axis" convention is not honoured -/
+def axisOfArg : AxisArg → Except Err AxisSpec
+  | .none => .ok .none
+  | .one a => if a < 0 then .error .valueError else .ok (.one a.toNat)
+  | .many l => .ok (.many (l.filterMap fun a => if a < 0 then Option.none else some a.toNat))
+
 /-- `_validate_axis_and_eps(x_shape, scale_axis, elements_per_scale)` (elements_per_scale not None) -/
 def validateAxisEps (shape : List Nat) (sa : AxisSpec) (eps : EpsSpec) : Except Err (List Nat × List Nat × Bool) :=
   -- result: (axes, factors, wasInt) — `wasInt` = both were ints (the int forms of the later helpers)
